@@ -21,9 +21,10 @@ class PathInfo:
                 e = S.switch_expr(n)
                 if isinstance(e, tuple) and e and e[0] == "const":
                     continue
-                if _mentions(e, ("phi",)) or _mentions_inlined_ret(S, e):
-                    # the flow-insensitive value merges several definitions (e.g. the result of an expanded boolean helper with
-                    # `a && b` inside): take the value this operand has *on this path*; a constant decides feasibility
+                if _mentions_inlined_ret(S, e):
+                    # the result of an expanded, loop-free helper with several returns values (`a && b` inside): take the value
+                    # this operand has *on this path*; a constant decides feasibility. (Not done for values merged around loops:
+                    # an enumerated path runs a loop body at most once and is not representative of the iterations.)
                     if sym is None:
                         sym = SymExec(S, path)
                     e2 = sym.switch_vals.get(i)
@@ -62,11 +63,48 @@ class PathInfo:
         return " & ".join("%s%s" % ("" if tr is True else ("!" if tr is False else ""), fmt_atom(a) + ("" if tr in (True, False) else "=%s" % (tr,))) for a, tr in self.literals) or "true"
 
 
+def _acyclic(fn):
+    c = getattr(fn, "_acyclic", None)
+    if c is None:
+        succ = {}
+        for bi, b in enumerate(fn.blocks):
+            t = b["term"]
+            k = t["k"]
+            out = []
+            if k == "goto":
+                out = [t["target"]]
+            elif k == "switch":
+                out = [tb for _, tb in t["targets"]] + [t["otherwise"]]
+            elif k in ("call", "drop", "assert") and t.get("target") is not None:
+                out = [t["target"]]
+            succ[bi] = out
+        color = {}
+        c = True
+        stack = [(0, iter(succ.get(0, ())))]
+        color[0] = 1
+        while stack and c:
+            v, it = stack[-1]
+            for w in it:
+                if color.get(w) == 1:
+                    c = False
+                    break
+                if w not in color:
+                    color[w] = 1
+                    stack.append((w, iter(succ.get(w, ()))))
+                    break
+            else:
+                color[v] = 2
+                stack.pop()
+        fn._acyclic = c
+    return c
+
+
 def _inlined_sites(S):
     c = getattr(S, "_inlined_sites", None)
     if c is None:
         # direct (or devirtualised) calls only: wrappers and higher-order combinators keep their summarised `ret` value
-        c = {"%s:bb%d" % (x.call_node.ctx.fn.npath, x.call_node.bb) for x in S.ctxs if x.call_node is not None and x.via in ("call", "virtual") and x.call_node.term["k"] == "call"}
+        c = {"%s:bb%d" % (x.call_node.ctx.fn.npath, x.call_node.bb) for x in S.ctxs
+             if x.call_node is not None and x.via in ("call", "virtual") and x.call_node.term["k"] == "call" and _acyclic(x.fn)}
         S._inlined_sites = c
     return c
 
